@@ -43,12 +43,20 @@ func opSplit(a []string) string {
 			}
 		}
 	}
+	// frame: Split may use (and zero) the caller's spare capacity up to the TotalShards*perShard bytes it needs; what lies
+	// behind that keeps its contents
+	outside := 0
+	for i := len(sh) * per; i < len(buf); i++ {
+		if i >= n && buf[i] != 0xA5 {
+			outside++
+		}
+	}
 	// the result must be directly encodable
 	encRes := "enc=nil"
 	if e := enc.Encode(sh); e != nil {
 		encRes = "enc=" + errClass(e)
 	}
-	return fmt.Sprintf("ok %d %d %s %d %s", len(sh), per, hex64(fnv(fnvInit, all)), aliased, encRes)
+	return fmt.Sprintf("ok %d %d %s %d %s out=%d", len(sh), per, hex64(fnv(fnvInit, all)), aliased, encRes, outside)
 }
 
 // join <fam> <d> <p> <len> <outSize> <nil list> <nshards given> <seed>
